@@ -5,7 +5,8 @@ V = os.path.dirname(os.path.dirname(os.path.abspath(__file__)))
 res = json.load(open(f"{V}/seeded/RESULTS.json"))
 # changes whose declared property the owning check does not see, but which the check of the property they actually break does
 # (verified with tools/mutant_test.sh <patch> <that property>)
-CROSS = {"C02-r4-frame-read-valueerror-dropped": "C01 (continuity:file/dict, stream_cut)", "C13-r5-disc-catches-sendfailed-only": "C12 (incomplete:*)"}
+CROSS = {"C02-r4-frame-read-valueerror-dropped": "C01 (continuity:file/dict, stream_cut)", "C13-r5-disc-catches-sendfailed-only": "C12 (incomplete:*)",
+         "C16-dict-reader-yields-once": "the thorough tier of C16 (packets_lost:000A, about 4 min; earlier sweep)"}
 rows = ["| seeded change | property | verdict (tier) | signatures that fired |", "|---|---|---|---|"]
 for n in sorted(d for d in os.listdir(f"{V}/seeded") if os.path.exists(f"{V}/seeded/{d}/patch.diff")):
     r = res.get(n)
